@@ -17,7 +17,7 @@ CLAUSES = {
     "compile": (("C07",), "a grammatical program compiles to an evaluator"),
     "internal-error": (("C07",), "evaluation ends with a group or the unroutable error, never an internal SyntaxError/NameError/..."),
     "routing": (("C02",), "the returned group belongs to exactly the return statement selected by if / else-if / else"),
-    "error-class": (("C02",), "the outcome class (group / unroutable error) is the reference one"),
+    "error-class": (("C02", "C16", "C03", "C14"), "the outcome class (group / unroutable error) is the reference one"),
     "literal": (("C05",), "returned labels have the literal's exact value AND type"),
     "ast": (("C02", "C05"), "parse_source builds the AST the reference parser builds (values and types)"),
     "bucket": (("C12", "C03", "C10", "C15", "C09"), "the group inside the selected return statement is the one the published scheme gives"),
